@@ -23,6 +23,7 @@ pub fn scenario_fn(name: &str) -> Option<ScenarioFn> {
     Some(match name {
         "agent" => crate::sc_agent::scenario,
         "wire" => crate::sc_wire::scenario,
+        "world" => crate::sc_world::scenario,
         "cut" => crate::sc_codec::scenario_cut,
         "crc" => crate::sc_codec::scenario_crc,
         "tamper" => crate::sc_codec::scenario_tamper,
@@ -39,6 +40,9 @@ pub fn all_scenarios() -> Vec<(&'static str, &'static str, &'static str)> {
         ("agent", "timing", "C06"),
         ("agent", "forgery", "C07"),
         ("agent", "balanced", "C20"),
+        ("world", "hostile", "C05"),
+        ("world", "forgery", "C07"),
+        ("world", "calm", "C06"),
         ("wire", "baseline", "C02"),
         ("wire", "faults", "C02"),
         ("wire", "hostile", "C01"),
@@ -62,12 +66,19 @@ const REAL_AGENT: [&str; 3] = ["stun_proto::agent::StunAgent (send, poll, handle
 const SIM_AGENT: [&str; 4] = ["clock (nanosecond offsets from one anchor Instant)", "application driving the agent (seeded operation mix)", "peer / attacker producing genuine, forged, replayed, truncated responses", "poll scheduler (exact, early, late, stalled, clock jump)"];
 const REF_AGENT: [&str; 2] = ["transaction model (sim/src/model_tx.rs)", "reference codec: HMAC/CRC/TLV walk (sim/src/refcodec.rs)"];
 
-const RULE_AGENT: &str = "each evaluation is one seeded history of 5..70 (thorough 5..200) agent calls plus the drain to quiescence, checked against the transaction model after every call; a run is non-trivial when it had >=2 transactions outstanding at once or at least one fired fault (late/stalled poll, forged/replayed/duplicate/unknown response, truncation, duplicate id, cancel); distinct = distinct FNV-1a hash of the full event log (every call, reply, simulated instant and query result)";
+const RULE_AGENT: &str = "batch `agent`: each evaluation is one seeded history of 5..70 (thorough 5..200) agent calls plus the drain to quiescence, checked against the transaction model after every call; a run is non-trivial when it had >=2 transactions outstanding at once or at least one fired fault (late/stalled poll, forged/replayed/duplicate/unknown response, truncation, duplicate id, cancel); distinct = distinct FNV-1a hash of the full event log (every call, reply, simulated instant and query result). Batches `world`: each evaluation is one discrete-event run of 1..3 clients (real StunAgents, one transaction model each), a server running stund.rs's logic on real library code, an attacker, UDP links (drop, duplicate, delay/reorder, corrupt, truncate, coalesce, NAT, partition/heal) and RFC 4571-framed TCP streams through real TcpBuffers (segmentation, stalls, connection cut); faults stop at a drawn quiescence time, after which every transaction must complete within its schedule; profile `calm` is the same world without network faults or attacker";
 
 fn agent_plan(profile: &'static str, quick: u64, thorough_runs: u64, thorough: bool, probes: Vec<&'static str>) -> Plan {
+    let world_profile = if profile == "forgery" { "forgery" } else { "hostile" };
     Plan {
         level: "exploration",
-        batches: vec![Batch { scenario: "agent", profile, runs: if thorough { thorough_runs } else { quick } }],
+        batches: vec![
+            Batch { scenario: "agent", profile, runs: if thorough { thorough_runs } else { quick } },
+            // end to end: clients, server (stund.rs logic), attacker, faulty UDP links and framed TCP streams
+            Batch { scenario: "world", profile: world_profile, runs: if thorough { thorough_runs / 5 } else { quick / 5 } },
+            // the same world without network faults or attacker (a relaxation made for faults must not hide an ordinary bug)
+            Batch { scenario: "world", profile: "calm", runs: if thorough { thorough_runs / 20 } else { quick / 20 } },
+        ],
         rule: RULE_AGENT,
         assumptions: vec![A_MONO, A_MS, A_FIT, A_MID, A_HASH, A_APP],
         required_probes: probes,
@@ -79,12 +90,17 @@ fn agent_plan(profile: &'static str, quick: u64, thorough_runs: u64, thorough: b
 
 pub fn plan(prop: &str, thorough: bool) -> Option<Plan> {
     Some(match prop {
-        "C05" => agent_plan("balanced", 800_000, 12_000_000, thorough, vec!["probe.two_due_at_same_poll", "probe.response_after_timeout", "probe.response_after_cancel", "probe.duplicate_response", "probe.id_reused_after_completion", "probe.response_after_cancel_before_report"]),
-        "C06" => agent_plan("timing", 800_000, 12_000_000, thorough, vec!["probe.two_due_at_same_poll", "probe.poll_later_than_two_deadlines", "probe.wakeup_more_than_3600s_ahead", "probe.reconfigured_mid_schedule"]),
-        "C07" => agent_plan("forgery", 800_000, 12_000_000, thorough, vec!["probe.signed_request_no_remote_credentials", "probe.remote_credentials_changed_while_signed_outstanding", "probe.mixed_integrity_pair"]),
-        "C15" => agent_plan("balanced", 800_000, 12_000_000, thorough, vec!["probe.incoming_request_with_outstanding_id"]),
-        "C18" => agent_plan("balanced", 800_000, 12_000_000, thorough, vec!["probe.two_due_at_same_poll", "probe.poll_later_than_two_deadlines"]),
-        "C20" => agent_plan("balanced", 80_000, 1_200_000, thorough, vec!["probe.two_due_at_same_poll"]),
+        "C05" => agent_plan("balanced", 500_000, 10_000_000, thorough, vec!["probe.two_due_at_same_poll", "probe.response_after_timeout", "probe.response_after_cancel", "probe.duplicate_response", "probe.id_reused_after_completion", "probe.response_after_cancel_before_report"]),
+        "C06" => agent_plan("timing", 500_000, 10_000_000, thorough, vec!["probe.two_due_at_same_poll", "probe.poll_later_than_two_deadlines", "probe.wakeup_more_than_3600s_ahead", "probe.reconfigured_mid_schedule"]),
+        "C07" => agent_plan("forgery", 500_000, 10_000_000, thorough, vec!["probe.signed_request_no_remote_credentials", "probe.remote_credentials_changed_while_signed_outstanding", "probe.mixed_integrity_pair"]),
+        "C15" => agent_plan("balanced", 500_000, 10_000_000, thorough, vec!["probe.incoming_request_with_outstanding_id"]),
+        "C18" => agent_plan("balanced", 500_000, 10_000_000, thorough, vec!["probe.two_due_at_same_poll", "probe.poll_later_than_two_deadlines"]),
+        "C20" => {
+            // the replays need a single recorded call history: agent scenario only
+            let mut p = agent_plan("balanced", 80_000, 1_200_000, thorough, vec!["probe.two_due_at_same_poll"]);
+            p.batches.truncate(1);
+            p
+        }
         "C01" => codec_plan(
             "exploration",
             vec![b("wire", "hostile", 500_000, 8_000_000, thorough), b("wire", "faults", 250_000, 4_000_000, thorough), b("wire", "baseline", 80_000, 1_000_000, thorough), b("wire", "bigbuf", 4_000, 80_000, thorough)],
